@@ -1029,6 +1029,9 @@ func (c *p5) nullableReason(fn *Func, e ast.Expr, depth int) string {
 									if m := c.mayNil[f]; m != nil && m[i] != "" {
 										return "result " + fmt.Sprint(i) + " of " + funcName(f) + ", which may be nil (" + m[i] + ")"
 									}
+									if c.p.FuncOf[f] == nil && pointerWithError(f, i) {
+										return "result " + fmt.Sprint(i) + " of " + funcName(f) + ", a pointer returned next to an error by code outside the module (nil when the error is set)"
+									}
 								}
 							}
 						}
@@ -1140,7 +1143,7 @@ func (c *p5) pathNonNil(fn *Func, e ast.Expr, path string, at ast.Node, depth in
 							m := c.mayNil[f]
 							if (m == nil || m[0] == "") && c.p.FuncOf[f] != nil {
 								d.nonNil = true
-							} else if c.nilWithErr[f] != nil && c.nilWithErr[f][0] {
+							} else if (c.nilWithErr[f] != nil && c.nilWithErr[f][0]) || (c.p.FuncOf[f] == nil && pointerWithError(f, 0)) {
 								if eid, ok := ast.Unparen(s.Lhs[1]).(*ast.Ident); ok && eid.Name != "_" {
 									d.errVar = info.ObjectOf(eid)
 								}
@@ -1157,6 +1160,15 @@ func (c *p5) pathNonNil(fn *Func, e ast.Expr, path string, at ast.Node, depth in
 					}
 				} else if len(s.Rhs) == 1 {
 					if call, isCall := ast.Unparen(s.Rhs[0]).(*ast.CallExpr); isCall {
+						if f := calleeOf(info, call); f != nil && c.p.FuncOf[f] == nil {
+							for i, l := range s.Lhs {
+								if lid, ok := ast.Unparen(l).(*ast.Ident); ok && info.ObjectOf(lid) == obj && pointerWithError(f, i) {
+									if eid, ok := ast.Unparen(s.Lhs[len(s.Lhs)-1]).(*ast.Ident); ok && eid.Name != "_" {
+										d.errVar = info.ObjectOf(eid)
+									}
+								}
+							}
+						}
 						if f := calleeOf(info, call); f != nil && c.p.FuncOf[f] != nil {
 							for i, l := range s.Lhs {
 								if lid, ok := ast.Unparen(l).(*ast.Ident); ok && info.ObjectOf(lid) == obj {
@@ -1613,4 +1625,20 @@ func (c *p5) rangeRedefinesOnEveryIteration(fn *Func, head *cfg.Block, obj types
 		return false
 	}
 	return !back(head.Succs[0])
+}
+
+// pointerWithError: f (an interface method or a function outside the module: no body to
+// summarise) returns a pointer at result i and an error as its last result — by the Go
+// convention the pointer is nil when the error is set.
+func pointerWithError(f *types.Func, i int) bool {
+	sig, ok := f.Type().(*types.Signature)
+	if !ok || sig.Results().Len() < 2 || i >= sig.Results().Len()-1 {
+		return false
+	}
+	last := sig.Results().At(sig.Results().Len() - 1).Type()
+	if n, ok := last.(*types.Named); !ok || n.Obj().Name() != "error" || n.Obj().Pkg() != nil {
+		return false
+	}
+	_, isPtr := sig.Results().At(i).Type().Underlying().(*types.Pointer)
+	return isPtr
 }
